@@ -340,15 +340,29 @@ def read_file(case, path):
 
 
 # ----------------------------------------------------------------------------- tie: model vs implementation
-def canon_ops(rec, kind):
+def canon_ops(rec, kind, prop="C16"):
+    """Observables compared per call.  C16: every interposed system call with its descriptor number and result.
+    C14 (file contents): which file is opened and what is written where -- descriptor numbers are canonicalised to the
+    path they were opened with, and flock/close calls and the descriptor table are left to C16 (a stray close does not
+    change what a raw file contains)."""
     out = []
+    path_of = {}
     for o in rec["ops"]:
         sysl = []
         for s in o["sys"]:
             if s[0] == "pwrite" and kind in ("tiff", "tiffjson"):
                 s = ("pwrite", s[1], "-", s[3], s[4])      # offsets of tiff writes belong to C15
+            if prop == "C14":
+                if s[0] == "open":
+                    if s[2] >= 0:
+                        path_of[s[2]] = s[1]
+                    s = ("open", s[1], s[2] >= 0)
+                elif s[0] == "pwrite":
+                    s = ("pwrite", path_of.get(s[1], "?"), s[2], s[3], s[4])
+                else:
+                    continue
             sysl.append(s)
-        out.append((o["name"], tuple(sysl), tuple(o["env"]), o["res"]))
+        out.append((o["name"], tuple(sysl), tuple(o["env"]) if prop != "C14" else (), o["res"]))
     return out
 
 
@@ -364,14 +378,14 @@ def compare(ctx, case, impl, model):
         return "implementation ended abnormally (exit=%s) while the model terminates" % (impl["exit"],)
     if model["diverged"]:
         return "the model diverges while the implementation terminates"
-    a, b = canon_ops(impl, case["kind"]), canon_ops(model, case["kind"])
+    a, b = canon_ops(impl, case["kind"], ctx.prop), canon_ops(model, case["kind"], ctx.prop)
     if a != b:
         for k in range(max(len(a), len(b))):
             x = a[k] if k < len(a) else None
             y = b[k] if k < len(b) else None
             if x != y:
                 return {"op_index": k, "impl": x, "model": y}
-    if impl["final"] != model["final"]:
+    if ctx.prop != "C14" and impl["final"] != model["final"]:
         return {"open descriptors at the end": {"impl": impl["final"], "model": model["final"]}}
     if case["kind"] == "raw":
         for p, mb in model["files"].items():
@@ -453,9 +467,10 @@ def oracle_c16(case, impl, stderr=""):
         if sig == 24:
             v.append(("hang", "the device call did not return within the CPU limit (SIGXCPU)"))
         elif impl["trunc"] or "stack-overflow" in (stderr or ""):
-            last = impl["ops"][-1]["name"] if impl["ops"] else "?"
-            v.append(("unbounded-recursion", "during '%s' the device issued more than 4000 system calls / overflowed the stack (exit=%s signal=%s): "
-                      "a failing write re-enters the stop path without bound" % (last, code, sig)))
+            last = impl["ops"][-1] if impl["ops"] else {"name": "?", "sys": []}
+            tail = [list(x) for x in last["sys"][-4:]]
+            v.append(("unbounded-recursion", "the single call '%s' issued more than 4000 system calls / overflowed the stack and never returned "
+                      "(cut off; exit=%s signal=%s); its last calls: %s" % (last["name"], code, sig, tail)))
         else:
             v.append(("crash", "the process died during the history (exit=%s signal=%s)" % (code, sig)))
     own = set()                        # opened by the device through an interposed open, not closed since
@@ -618,6 +633,8 @@ def fold(ctx, orac, impl, results, prop, label):
         for key, what in vs:
             if not ctx.has_violation(key):
                 small = minimise(ctx, orac, impl, case, prop, key)
+                small["src"] = case.get("src", "generated (seed %d)" % ctx.seed) + (
+                    "" if len(small["ops"]) == len(case["ops"]) else ", shrunk from %d to %d ops" % (len(case["ops"]), len(small["ops"])))
                 r = run_batch(ctx, orac, impl, [small], "rep-" + key)
                 c2, io2, mo2, err2 = r[0]
                 vs2 = oracle_c14(c2, io2)[0] if prop == "C14" else oracle_c16(c2, io2, err2)
@@ -716,9 +733,13 @@ def run(ctx):
         "the runtime does not reconfigure a running device (no set while Running; C08's subject) -- stated as hypothesis `disciplined` in the theorems",
         "storage_close is exercised as storage_stop + driver_close_device; its final write to the freed object (D10, C11) is left out",
         "64-bit wrap of offsets is not modelled (offsets are unbounded naturals)",
+        "ftruncate(fd, 0) in file_create (and access/unlink in file_is_writable) are not interposed and are taken to succeed; "
+        "an existing file is taken to be writable",
     ]
     ctx.extra["scope_notes"] = [
-        "C14: acquisitions that re-use a path of the same history are outside the statement (file_create does not truncate); counted in c14_outside, bytes not compared",
+        "C14 oracle: acquisitions that re-use a path of the same history are outside the property's text ('other paths'); counted in c14_outside and "
+        "not judged by the oracle. The model (file_create truncates) still predicts their bytes and the tie compares them; theorem C14_exact covers them",
+        "C14 tie: descriptor numbers are canonicalised to paths; flock/close calls and the descriptor table are compared by C16 only",
         "tiff kinds: pwrite offsets and bytes are C15's subject and are not compared here; call, descriptor, length and result are",
     ]
     # ---- replay of a recorded violation:  tools/check.py --property Cxx --replay replays/Cxx-n.json
@@ -743,8 +764,8 @@ def run(ctx):
         ctx.rule = ("1..4 set/start/append*/stop cycles on one raw device through the real HAL (0..12 packets of 1..5 frames, pixel sizes with every "
                     "residue mod 8, plain and file:// uris, empty names, life-cycle noise), under pwrite scripts aimed at each packet: full, 1, n-1, "
                     "random splits, bursts of 1..3 zero-length results, rare errors; a quarter of the cases also fail one create. Compared with the "
-                    "extracted model: every open/flock/pwrite/close (descriptor, offset, length, result), HAL status and device state per call, final "
-                    "descriptor table, final bytes of every file read back from disk. Non-trivial = at least one append and >= 4 system calls; "
+                    "extracted model: every open (path, success) and pwrite (file, offset, length, result), HAL status and device state per call, final "
+                    "bytes of every file read back from disk (flock/close calls, descriptor numbers and the descriptor table are C16's observables). Non-trivial = at least one append and >= 4 system calls; "
                     "distinct = distinct (scripts, op list).")
         n = 60000 if thorough else 6000
         for i in range(n):
